@@ -2,10 +2,12 @@
   C11 for `solve_slalom`, part 6 (soundness): every model of the posted program obeys the rules.
 -/
 import CspuzModel.Proofs.C11SlalomT
+import CspuzModel.Proofs.C11SlalomD
+import Mathlib.Data.List.Perm.Subperm
 namespace Cspuz.Proofs.C11SlalomA
 open Cspuz Cspuz.Spec Cspuz.Spec.FrameGeom Cspuz.Spec.Loop Cspuz.Proofs Cspuz.Proofs.C11Loop
 open Cspuz.Puzzles Cspuz.Puzzles.Loop Cspuz.Puzzles.Slalom Cspuz.Spec.Slalom Cspuz.Proofs.C11SlalomP
-open Cspuz.Proofs.C11SlalomS Cspuz.Proofs.C11SlalomG Cspuz.Proofs.C11SlalomT
+open Cspuz.Proofs.C11SlalomS Cspuz.Proofs.C11SlalomG Cspuz.Proofs.C11SlalomT Cspuz.Proofs.C11SlalomD
 
 section Flow
 variable (pb : Problem) (σ : Asg)
@@ -59,6 +61,7 @@ theorem out_unique {c b b' : Pt} (h : goes pb σ c b) (h' : goes pb σ c b') : b
     ((outb_iff pb σ c1 c2 hj).mpr (by rw [hj1]; exact h'))
   rw [← hi1, ← hj1, this]
 
+omit h1 h2 in
 theorem in_exists {c : Pt} (c1 : c.1 < pb.height) (c2 : c.2 < pb.width) (hp : pasS pb σ c = true) : ∃ a, goes pb σ a c := by
   have hc := (hloc.cell c c1 c2).indeg
   rw [hp] at hc
@@ -66,6 +69,7 @@ theorem in_exists {c : Pt} (c1 : c.1 < pb.height) (c2 : c.2 < pb.width) (hp : pa
   obtain ⟨i, hi, hin⟩ := countP_one_exists _ _ hc
   exact ⟨i.1, (inb_iff pb σ c1 c2 hi).mp hin⟩
 
+omit h1 h2 in
 theorem out_exists {c : Pt} (c1 : c.1 < pb.height) (c2 : c.2 < pb.width) (hp : pasS pb σ c = true) : ∃ b, goes pb σ c b := by
   have hc := (hloc.cell c c1 c2).outdeg
   rw [hp] at hc
@@ -73,6 +77,365 @@ theorem out_exists {c : Pt} (c1 : c.1 < pb.height) (c2 : c.2 < pb.width) (hp : p
   obtain ⟨i, hi, hout⟩ := countP_one_exists _ _ hc
   exact ⟨i.1, (outb_iff pb σ c1 c2 hi).mp hout⟩
 
+/-- Along the line the direction bits are consistent: the step into a point and the step out of it. -/
+theorem fwd_succ {L : Nat} {f : Nat → Pt} (c : Cyc HH WW (onOf HH WW σ) L f) (k : Nat) :
+    goes pb σ (f k) (f (k + 1)) ↔ goes pb σ (f (k + 1)) (f (k + 2)) := by
+  have s1 := stepOn_goes pb σ (c.step k)
+  have s2 := stepOn_goes pb σ (c.step (k + 1))
+  constructor
+  · intro hg
+    rcases s2 with s2 | s2
+    · exact s2
+    · exfalso
+      have e := in_unique pb σ h1 h2 hloc hg s2
+      obtain ⟨_, _, q1, q2, _, hq⟩ := goes_facts pb σ h1 h2 hloc hg
+      obtain ⟨b, hb⟩ := out_exists pb σ hloc q1 q2 hq
+      rcases c.nbr k (goes_stepOn pb σ hb) with hb' | hb'
+      · rw [hb'] at hb; exact goes_asymm pb σ hg hb
+      · rw [hb', ← e] at hb; exact goes_asymm pb σ hg hb
+  · intro hg
+    rcases s1 with s1 | s1
+    · exact s1
+    · exfalso
+      have e := out_unique pb σ h1 h2 hloc hg s1
+      obtain ⟨q1, q2, _, _, hq, _⟩ := goes_facts pb σ h1 h2 hloc hg
+      obtain ⟨a, ha⟩ := in_exists pb σ hloc q1 q2 hq
+      rcases c.nbr k (stepOn_symm (goes_stepOn pb σ ha)) with ha' | ha'
+      · rw [ha', ← e] at ha; exact goes_asymm pb σ hg ha
+      · rw [ha'] at ha; exact goes_asymm pb σ hg ha
+
+theorem fwd_all {L : Nat} {f : Nat → Pt} (c : Cyc HH WW (onOf HH WW σ) L f) (k : Nat) :
+    goes pb σ (f 0) (f 1) ↔ goes pb σ (f k) (f (k + 1)) := by
+  induction k with
+  | zero => exact Iff.rfl
+  | succ k ih => exact ih.trans (fwd_succ pb σ h1 h2 hloc c k)
+
+/-- The line as a periodic sequence that follows the direction bits. -/
+theorem directed_cycle {L : Nat} {f : Nat → Pt} (c : Cyc HH WW (onOf HH WW σ) L f) :
+    ∃ g, Cyc HH WW (onOf HH WW σ) L g ∧ ∀ k, goes pb σ (g k) (g (k + 1)) := by
+  by_cases h0 : goes pb σ (f 0) (f 1)
+  · exact ⟨f, c, fun k => (fwd_all pb σ h1 h2 hloc c k).mp h0⟩
+  · have hb : ∀ k, goes pb σ (f (k + 1)) (f k) := by
+      intro k
+      rcases stepOn_goes pb σ (c.step k) with h | h
+      · exact absurd ((fwd_all pb σ h1 h2 hloc c k).mpr h) h0
+      · exact h
+    have hL : 0 < L := c.pos
+    have hfL : f L = f 0 := by have := c.per 0; simpa using this
+    refine ⟨_, c.rev, ?_⟩
+    intro k
+    show goes pb σ (f (L - k % L)) (f (L - (k + 1) % L))
+    have hr : k % L < L := Nat.mod_lt _ hL
+    rw [Cyc.succ_mod' k L hL]
+    by_cases hk : k % L + 1 = L
+    · rw [if_pos hk, Nat.sub_zero, hfL]
+      have : L - k % L = 0 + 1 := by omega
+      rw [this]
+      exact hb 0
+    · rw [if_neg hk]
+      have : L - k % L = (L - (k % L + 1)) + 1 := by omega
+      rw [this]
+      exact hb _
+
+/-- ... and starts at the circle. -/
+theorem origin_cycle (hor1 : (originN pb).1 < pb.height) (hor2 : (originN pb).2 < pb.width)
+    (hloop : IsLoop HH WW (onOf HH WW σ)) :
+    ∃ L g, Cyc HH WW (onOf HH WW σ) L g ∧ (∀ k, goes pb σ (g k) (g (k + 1))) ∧ g 0 = originN pb := by
+  obtain ⟨a, ha⟩ := in_exists pb σ hloc hor1 hor2 hloc.origin
+  have hst := goes_stepOn pb σ ha
+  obtain ⟨s, hv, ho, _⟩ := hst
+  obtain ⟨L, f, c⟩ := loop_cycle HH WW (onOf HH WW σ) hloop ⟨s, hv, ho⟩
+  obtain ⟨g, cg, hg⟩ := directed_cycle pb σ h1 h2 hloc c
+  obtain ⟨k0, _, hk0⟩ := cg.mem_of_step (stepOn_symm (goes_stepOn pb σ ha))
+  refine ⟨L, fun k => g (k + k0), cg.shift k0, ?_, ?_⟩
+  · intro k
+    show goes pb σ (g (k + k0)) (g (k + 1 + k0))
+    rw [show k + 1 + k0 = (k + k0) + 1 by omega]
+    exact hg _
+  · show g (0 + k0) = originN pb
+    rw [Nat.zero_add]; exact hk0
+
 end Flow
+
+/-! ### the round trip as a list -/
+
+/-- the first `L` points of a periodic sequence. -/
+def tourOf (L : Nat) (g : Nat → Pt) : List Pt := (List.range L).map g
+
+theorem tourOf_length (L : Nat) (g : Nat → Pt) : (tourOf L g).length = L := by simp [tourOf]
+
+theorem tourOf_getD (L : Nat) (g : Nat → Pt) (o : Pt) {k : Nat} (hk : k < L) : (tourOf L g).getD k o = g k := by
+  simp [tourOf, List.getD, hk]
+
+theorem tourOf_take (L : Nat) (g : Nat → Pt) {k : Nat} (hk : k ≤ L) : (tourOf L g).take k = tourOf k g := by
+  unfold tourOf
+  rw [← List.map_take, List.take_range, Nat.min_eq_left hk]
+
+theorem isTour_of_cyc {H W : Nat} {on : Seg → Bool} {L : Nat} {g : Nat → Pt} (c : Cyc H W on L g) :
+    IsTour H W on (g 0) (tourOf L g) := by
+  have hL : 0 < L := c.pos
+  refine ⟨?_, ?_, ?_, ?_⟩
+  · unfold tourOf
+    obtain ⟨n, rfl⟩ : ∃ n, L = n + 1 := ⟨L - 1, by omega⟩
+    rw [List.range_succ_eq_map]
+    rfl
+  · unfold tourOf
+    apply List.Nodup.map_on _ List.nodup_range
+    intro i hi j hj h
+    exact c.inj i j (List.mem_range.mp hi) (List.mem_range.mp hj) h
+  · intro k hk
+    rw [tourOf_length] at hk ⊢
+    unfold nxt
+    rw [tourOf_getD L g _ hk, tourOf_getD L g _ (Nat.mod_lt _ hL), ← c.mod (k + 1)]
+    exact c.step k
+  · intro s hs ho
+    obtain ⟨k, hk, he⟩ := c.cover s hs ho
+    refine ⟨k, by rw [tourOf_length]; exact hk, ?_⟩
+    unfold nxt
+    rw [tourOf_length, tourOf_getD L g _ hk, tourOf_getD L g _ (Nat.mod_lt _ hL), ← c.mod (k + 1)]
+    exact he
+
+/-- A model of the local constraints together with the drawn line as a directed periodic sequence that starts at the
+circle. -/
+structure Run (pb : Problem) (σ : Asg) (L : Nat) (g : Nat → Pt) : Prop where
+  hw : WellFormed pb
+  hloc : Local pb σ
+  cg : Cyc (pb.height - 1) (pb.width - 1) (onOf (pb.height - 1) (pb.width - 1) σ) L g
+  hg : ∀ k, goes pb σ (g k) (g (k + 1))
+  g0 : g 0 = originN pb
+
+/-- number of gate cells among `g 0 … g k`. -/
+def cnt (pb : Problem) (g : Nat → Pt) (k : Nat) : Nat := (tourOf (k + 1) g).countP (onGate pb)
+
+theorem onGate_origin {pb : Problem} (hw : WellFormed pb) : onGate pb (originN pb) = false := by
+  rw [onGate_eq]
+  exact hw.2.2.2.2.2.2.1
+
+theorem cnt_zero {pb : Problem} (hw : WellFormed pb) {g : Nat → Pt} (g0 : g 0 = originN pb) : cnt pb g 0 = 0 := by
+  unfold cnt tourOf
+  simp only [Nat.zero_add, List.range_one, List.map_cons, List.map_nil, List.countP_cons, List.countP_nil]
+  rw [g0, onGate_origin hw]
+  rfl
+
+theorem cnt_succ (pb : Problem) (g : Nat → Pt) (k : Nat) :
+    cnt pb g (k + 1) = cnt pb g k + (if onGate pb (g (k + 1)) = true then 1 else 0) := by
+  unfold cnt tourOf
+  rw [List.range_succ, List.map_append, List.countP_append]
+  simp [List.countP_cons]
+
+section Tour
+variable {pb : Problem} {σ : Asg} {L : Nat} {g : Nat → Pt} (R : Run pb σ L g)
+include R
+
+theorem cyc_facts (k : Nat) : (g k).1 < pb.height ∧ (g k).2 < pb.width ∧ pasS pb σ (g k) = true ∧
+    black pb (g k).1 (g k).2 = false := by
+  obtain ⟨a1, a2, _, _, a5, _⟩ := goes_facts pb σ R.hw.1 R.hw.2.1 R.hloc (R.hg k)
+  refine ⟨a1, a2, a5, ?_⟩
+  cases hb : black pb (g k).1 (g k).2
+  · rfl
+  · have := (R.hloc.cell _ a1 a2).blk hb
+    rw [a5] at this; cases this
+
+theorem ne_origin (k : Nat) (hk : k + 1 < L) : g (k + 1) ≠ originN pb := by
+  rw [← R.g0]
+  intro h
+  have := (R.cg.eq_iff _ _).mp h
+  rw [Nat.mod_eq_of_lt hk, Nat.zero_mod] at this
+  omega
+
+theorem ord_step (k : Nat) (hk : k + 1 < L) :
+    ordS pb σ (g (k + 1)) = ordS pb σ (g k) + (if onGate pb (g (k + 1)) = true then 1 else 0) := by
+  obtain ⟨c1, c2, _, cb⟩ := cyc_facts R (k + 1)
+  have hne := ne_origin R k hk
+  obtain ⟨_, _, _, _, _, ⟨i, hi, hi1, _⟩⟩ := stepOn_nb pb R.hw.1 R.hw.2.1 (goes_stepOn pb σ (R.hg k))
+  have hin : inb pb σ i = true := (inb_iff pb σ c1 c2 hi).mpr (by rw [hi1]; exact R.hg k)
+  have := (R.hloc.cell _ c1 c2).step cb hne i hi hin
+  rw [hi1] at this
+  omega
+
+theorem ord_cnt (k : Nat) (hk : k < L) : ordS pb σ (g k) = ordS pb σ (g 0) + cnt pb g k := by
+  induction k with
+  | zero => rw [cnt_zero R.hw R.g0]; simp
+  | succ k ih =>
+    rw [ord_step R k hk, ih (by omega), cnt_succ]
+    split
+    · simp; omega
+    · simp
+
+theorem on_tour {p : Pt} (p1 : p.1 < pb.height) (p2 : p.2 < pb.width) (hp : pasS pb σ p = true) :
+    ∃ k, k < L ∧ g k = p := by
+  obtain ⟨a, ha⟩ := in_exists pb σ R.hloc p1 p2 hp
+  exact R.cg.mem_of_step (stepOn_symm (goes_stepOn pb σ ha))
+
+/-- the passed cell of a gate. -/
+def phi (pb : Problem) (σ : Asg) (γ : Gate) : Pt := ((gateCellsN γ).find? (pasS pb σ)).getD (0, 0)
+
+theorem phi_spec {γ : Gate} (hγ : γ ∈ pb.gates) : phi pb σ γ ∈ gateCellsN γ ∧ pasS pb σ (phi pb σ γ) = true := by
+  obtain ⟨c, hc, hpc⟩ := countP_one_exists _ _ (R.hloc.gates γ hγ)
+  unfold phi
+  cases hf : (gateCellsN γ).find? (pasS pb σ) with
+  | none =>
+    rw [List.find?_eq_none] at hf
+    exact absurd hpc (hf c hc)
+  | some c' =>
+    exact ⟨List.mem_of_find?_eq_some hf, List.find?_some hf⟩
+
+theorem gate_cell_board {γ : Gate} (hγ : γ ∈ pb.gates) {p : Pt} (hp : p ∈ gateCellsN γ) :
+    p.1 < pb.height ∧ p.2 < pb.width :=
+  gateCellsN_in (wf_gateOnBoard pb R.hw γ hγ) p hp
+
+/-- Every gate contributes its own gate cell to the round trip. -/
+theorem gates_le_cnt : pb.gates.length ≤ cnt pb g (L - 1) := by
+  have hL : 0 < L := R.cg.pos
+  have hnd : (pb.gates.flatMap gateCellsN).Nodup := R.hw.2.2.2.2.2.2.2.2
+  have hcnt : cnt pb g (L - 1) = ((tourOf L g).filter (onGate pb)).length := by
+    unfold cnt
+    rw [Nat.sub_add_cancel hL, List.countP_eq_length_filter]
+  rw [hcnt, ← List.length_map (f := phi pb σ)]
+  apply List.Subperm.length_le
+  apply List.subperm_of_subset
+  · rw [List.Nodup, List.pairwise_map]
+    apply List.Pairwise.imp_of_mem _ (List.nodup_flatMap.mp hnd).2
+    intro a b ha hb hd h
+    have := (phi_spec R ha).1
+    have hb' := (phi_spec R hb).1
+    rw [← h] at hb'
+    exact hd this hb'
+  · intro p hp
+    obtain ⟨γ, hγ, rfl⟩ := List.mem_map.mp hp
+    obtain ⟨hc, hpas⟩ := phi_spec R hγ
+    obtain ⟨b1, b2⟩ := gate_cell_board R hγ hc
+    obtain ⟨k, hk, hgk⟩ := on_tour R b1 b2 hpas
+    rw [List.mem_filter]
+    refine ⟨?_, ?_⟩
+    · rw [← hgk]
+      exact List.mem_map.mpr ⟨k, List.mem_range.mpr hk, rfl⟩
+    · rw [onGate_eq]
+      exact isGateCell_of_mem pb hγ hc
+
+theorem ord_origin (hb : ∀ p : Pt, p.1 < pb.height → p.2 < pb.width → 0 ≤ ordS pb σ p ∧ ordS pb σ p ≤ pb.gates.length) :
+    ordS pb σ (g 0) = 0 := by
+  have hL : 0 < L := R.cg.pos
+  have h1 := ord_cnt R (L - 1) (by omega)
+  have h2 := gates_le_cnt R
+  obtain ⟨a1, a2, _, _⟩ := cyc_facts R (L - 1)
+  obtain ⟨b1, b2, _, _⟩ := cyc_facts R 0
+  have h3 := (hb _ a1 a2).2
+  have h4 := (hb _ b1 b2).1
+  omega
+
+/-- A gate is closed at both ends, so the loop can only cross it at a right angle. -/
+theorem perp {γ : Gate} (hγ : γ ∈ pb.gates) {c q : Pt} (hc : c ∈ gateCellsN γ) (hpc : pasS pb σ c = true)
+    (hst : stepOn (pb.height - 1) (pb.width - 1) (onOf (pb.height - 1) (pb.width - 1) σ) c q)
+    (hpq : pasS pb σ q = true) :
+    match γ.d with
+    | .hor => q.2 = c.2
+    | .ver => q.1 = c.1 := by
+  obtain ⟨c1, c2, q1, q2, ⟨i, hi, hi1, _⟩, _⟩ := stepOn_nb pb R.hw.1 R.hw.2.1 hst
+  have huniq : ∀ q' ∈ gateCellsN γ, pasS pb σ q' = true → q' = c :=
+    fun q' hq' hp' => countP_one_unique _ _ (R.hloc.gates γ hγ) q' c hq' hc hp' hpc
+  have hnb : black pb q.1 q.2 = true → False := by
+    intro hbq
+    have := (R.hloc.cell q q1 q2).blk hbq
+    rw [hpq] at this; cases this
+  obtain ⟨gy, gx, gl, gd, _, _⟩ := R.hw.2.2.2.2.2.2.2.1 γ hγ
+  unfold gateCellsN at hc huniq
+  simp only [List.mem_map, List.mem_range] at hc huniq
+  obtain ⟨i0, hi0, hci0⟩ := hc
+  cases hd : γ.d with
+  | hor =>
+    rw [hd] at gd hci0 huniq
+    simp only [] at gd hci0 huniq ⊢
+    obtain ⟨gd1, gd2, gw1, gw2⟩ := gd
+    rcases mem_nbInfo.mp hi with ⟨_, rfl⟩ | ⟨_, rfl⟩ | ⟨hx0, rfl⟩ | ⟨hx1, rfl⟩
+    · rw [← hi1]
+    · rw [← hi1]
+    · exfalso
+      rw [← hi1] at hpq hnb q1 q2
+      simp only [] at hpq hnb q1 q2
+      rw [← hci0] at hx0 hpq hnb
+      simp only [] at hx0 hpq hnb
+      by_cases h0 : i0 = 0
+      · subst h0
+        rcases gw1 with w | w | w | w | w
+        · omega
+        · omega
+        · omega
+        · omega
+        · apply hnb
+          rw [← w]
+          congr 1
+          omega
+      · have := huniq (γ.y.toNat, γ.x.toNat + i0 - 1) ⟨i0 - 1, by omega, by congr 1; omega⟩ hpq
+        rw [← hci0] at this
+        simp only [Prod.mk.injEq] at this
+        omega
+    · exfalso
+      rw [← hi1] at hpq hnb q1 q2
+      simp only [] at hpq hnb q1 q2
+      rw [← hci0] at hx1 hpq hnb q2
+      simp only [] at hx1 hpq hnb q2
+      by_cases h0 : i0 + 1 = γ.l.toNat
+      · rcases gw2 with w | w | w | w | w
+        · omega
+        · omega
+        · omega
+        · omega
+        · apply hnb
+          rw [← w]
+          congr 1
+          omega
+      · have := huniq (γ.y.toNat, γ.x.toNat + i0 + 1) ⟨i0 + 1, by omega, by congr 1⟩ hpq
+        rw [← hci0] at this
+        simp only [Prod.mk.injEq] at this
+        omega
+  | ver =>
+    rw [hd] at gd hci0 huniq
+    simp only [] at gd hci0 huniq ⊢
+    obtain ⟨gd1, gd2, gw1, gw2⟩ := gd
+    rcases mem_nbInfo.mp hi with ⟨hy0, rfl⟩ | ⟨hy1, rfl⟩ | ⟨_, rfl⟩ | ⟨_, rfl⟩
+    · exfalso
+      rw [← hi1] at hpq hnb q1 q2
+      simp only [] at hpq hnb q1 q2
+      rw [← hci0] at hy0 hpq hnb
+      simp only [] at hy0 hpq hnb
+      by_cases h0 : i0 = 0
+      · subst h0
+        rcases gw1 with w | w | w | w | w
+        · omega
+        · omega
+        · omega
+        · omega
+        · apply hnb
+          rw [← w]
+          congr 1
+          omega
+      · have := huniq (γ.y.toNat + i0 - 1, γ.x.toNat) ⟨i0 - 1, by omega, by congr 1; omega⟩ hpq
+        rw [← hci0] at this
+        simp only [Prod.mk.injEq] at this
+        omega
+    · exfalso
+      rw [← hi1] at hpq hnb q1 q2
+      simp only [] at hpq hnb q1 q2
+      rw [← hci0] at hy1 hpq hnb q1
+      simp only [] at hy1 hpq hnb q1
+      by_cases h0 : i0 + 1 = γ.l.toNat
+      · rcases gw2 with w | w | w | w | w
+        · omega
+        · omega
+        · omega
+        · omega
+        · apply hnb
+          rw [← w]
+          congr 1
+          omega
+      · have := huniq (γ.y.toNat + i0 + 1, γ.x.toNat) ⟨i0 + 1, by omega, by congr 1⟩ hpq
+        rw [← hci0] at this
+        simp only [Prod.mk.injEq] at this
+        omega
+    · rw [← hi1]
+    · rw [← hi1]
+
+end Tour
 
 end Cspuz.Proofs.C11SlalomA
